@@ -28,3 +28,22 @@ func TestC09_ImportDroppedAfterDiscardedReference(t *testing.T) {
 		t.Fatalf("output does not type-check: %v", err)
 	}
 }
+
+// R9.7 (FIXED in /repo): the write-time usage visitor walked TypeSpec.Type but not TypeSpec.TypeParams: a
+// package referenced only from a type parameter constraint was not imported. The probe now asserts the
+// repaired behaviour.
+func TestC09_ImportDroppedForTypeParamConstraint(t *testing.T) {
+	pkg := newPkg()
+	fmtPkg := pkg.Import("fmt")
+	stringer := fmtPkg.Ref("Stringer").Type()
+	tp := types.NewTypeParam(types.NewTypeName(0, pkg.Types, "T", nil), stringer)
+	pkg.NewType("G").InitType(pkg, types.NewStruct(nil, nil), tp)
+	src := emit(t, pkg)
+	t.Logf("\n%s", src)
+	if strings.Contains(src, "fmt.Stringer") && !strings.Contains(src, `"fmt"`) {
+		t.Fatalf("defect is back: constraint emitted without its import")
+	}
+	if err := goCheck(src); err != nil {
+		t.Fatalf("output does not type-check: %v", err)
+	}
+}
